@@ -686,19 +686,28 @@ func c25Shrink(s *c25Seq, class string) *c25Seq {
 	return cur
 }
 
+var c25Reported = map[string]bool{}
+
 func c25Report(rec *kit.Rec, path string, s *c25Seq, fs []c25Finding) {
 	for _, f := range fs {
-		w := s
-		if path == "fake" && len(s.events) > 1 {
-			w = c25Shrink(s, f.class)
+		sig := f.class + "/" + path
+		if c25Reported[sig] {
+			rec.Violation(sig, f.what, nil) // counted only; the first witness is kept
+			continue
 		}
-		rec.Violation(f.class+"/"+path, f.what, w.describe())
+		c25Reported[sig] = true
+		// the witness of the first occurrence is shrunk on the fake path (the
+		// classes are the same on both paths)
+		w := c25Shrink(s, f.class)
+		if len(w.events) == len(s.events) {
+			w = s
+		}
+		rec.Violation(sig, f.what, w.describe())
 	}
 }
 
 func c25Features(s *c25Seq, o c25Obs) (string, bool) {
-	pending := 0    // stats-only events since the last flush of the sampler
-	pendingNZ := false
+	pendingNZ := false // the sampler holds a non-zero aggregate
 	var feats []string
 	seen := map[string]bool{}
 	add := func(f string) {
@@ -712,20 +721,19 @@ func c25Features(s *c25Seq, o c25Obs) (string, bool) {
 	for _, e := range s.events {
 		if len(e.Files) == 0 {
 			count++
-			pending++
 			if nz(&e.Stats) {
 				pendingNZ = true
 			}
 			if count%100 == 0 && pendingNZ {
 				add("sampled@100")
-				pending, pendingNZ = 0, false
+				pendingNZ = false
 			}
 			continue
 		}
 		if pendingNZ {
 			add("merged-into-files")
 		}
-		pending, pendingNZ = 0, false
+		pendingNZ = false
 		if len(e.Files) >= 1000 {
 			add("many-files")
 		}
@@ -864,10 +872,10 @@ func TestVerif_C25(t *testing.T) {
 	rec := kit.Open("C25")
 	defer rec.Done()
 	rec.Note("judged_stats_fields", c25Fields)
-	nLight := rec.N(1600, 60000)
+	nLight := rec.N(1600, 56000)
 	nHeavy := rec.N(400, 8000)
 	netEvery := rec.N(4, 8) // every k-th sequence also goes through the real grpc connection
-	nFlush := rec.N(25, 600)
+	nFlush := rec.N(25, 500)
 
 	nw, err := c25NewNet()
 	if err != nil {
@@ -908,7 +916,7 @@ func TestVerif_C25(t *testing.T) {
 		rec.Count("messages_with_stats", int64(o.statsMsgs))
 		rec.Count("multi_file_messages", int64(o.multiFileMsgs))
 		rec.Count("single_file_messages_over_budget", int64(o.singleOverBudget))
-		rec.Count("stats_on_empty_chunk_messages", int64(o.emptyFileMsgsWithStats))
+		rec.Count("stats_only_messages", int64(o.emptyFileMsgsWithStats))
 		rec.Max("max_multi_file_message_wire_bytes", int64(o.maxMultiWire))
 		rec.Max("max_multi_file_message_payload_bytes", int64(o.maxMultiPayload))
 		for _, f := range strings.Split(feat, "+") {
